@@ -714,11 +714,11 @@ Proof. reflexivity. Qed.
 
 Lemma iter_dispatch_spec f sp :
   ssorted (map fst (f_es f)) = true ->
-  f_isU f || legal_sp (f_d f) (f_es f) (below None) sp = true ->
+  fmt_U f || legal_sp (f_d f) (f_es f) (below None) sp = true ->
   iter_dispatch f sp = Some (spec_default_iter f).
 Proof.
   intros Hs Hl. unfold iter_dispatch, spec_default_iter.
-  destruct (f_isU f) eqn:EU.
+  destruct (fmt_U f) eqn:EU.
   - f_equal. unfold iter_range_shape. apply shape_loop_spec. exact Hs.
   - cbn [orb] in Hl. unfold iter_occupancy. apply iter_range_spec; assumption.
 Qed.
@@ -733,7 +733,7 @@ Lemma spec_default_iter_sorted f :
   ssorted (map fst (f_es f)) = true ->
   ssorted (map ycoord (spec_default_iter f)) = true.
 Proof.
-  intros Hs. unfold spec_default_iter. destruct (f_isU f).
+  intros Hs. unfold spec_default_iter. destruct (fmt_U f).
   - rewrite spec_shape_coords. apply zrange_sorted. lia.
   - apply spec_range_sorted. exact Hs.
 Qed.
@@ -915,7 +915,7 @@ Proof.
     destruct sp as [p|].
     + apply andb_true_iff in Hsp. destruct Hsp as [Hsp Hlegal].
       apply andb_true_iff in Hsp. destruct Hsp as [_ Hok]. rewrite Hok.
-      unfold iter_dispatch, spec_default_iter. destruct (f_isU f).
+      unfold iter_dispatch, spec_default_iter. destruct (fmt_U f).
       * f_equal. unfold iter_range_shape. rewrite shape_loop_spec by exact Hs.
         apply project_from_source. apply images_forward; [exact Hk|].
         rewrite spec_shape_coords. apply zrange_sorted. lia.
@@ -974,7 +974,7 @@ Lemma prune_spec f P sp :
   match sp with
   | None => true
   | Some q => (0 <=? q) && (q <? zlen (f_es f)) &&
-              (f_isU f || legal_sp (f_d f) (f_es f) (below None) sp)
+              (fmt_U f || legal_sp (f_d f) (f_es f) (below None) sp)
   end = true ->
   prune f P sp = Some (spec_prune f P).
 Proof.
@@ -1086,13 +1086,13 @@ Qed.
 
 Lemma dispatch_full f sp :
   ssorted (map fst (f_es f)) = true ->
-  f_isU f || legal_sp (f_d f) (f_es f) (below None) sp = true ->
+  fmt_U f || legal_sp (f_d f) (f_es f) (below None) sp = true ->
   iter_dispatch f sp
-  = if f_isU f
+  = if fmt_U f
     then Some (iter_range_shape f (fst (get_active f)) (snd (get_active f)) 1)
     else iter_range f None None None.
 Proof.
-  intros Hs Hl. unfold iter_dispatch. destruct (f_isU f); [reflexivity|].
+  intros Hs Hl. unfold iter_dispatch. destruct (fmt_U f); [reflexivity|].
   cbn [orb] in Hl. unfold iter_occupancy. apply iter_range_start_pos; assumption.
 Qed.
 
@@ -1138,7 +1138,7 @@ Proof.
 Qed.
 
 Lemma project_compressed f k b iv :
-  f_isU f = false ->
+  fmt_U f = false ->
   map strip_y (spec_project f k b iv)
   = (if k <? 0 then @rev (Z * tree) else fun l => l)
       (map (fun ct => (k * fst ct + b, snd ct))
@@ -1153,4 +1153,367 @@ Proof.
     fold (proj_of (f_d f) k b iv (indexed (f_es f))). unfold indexed.
     rewrite proj_of_indexed. reflexivity.
   - rewrite spec_range_all, proj_of_nonempty_src. unfold indexed. apply proj_of_indexed.
+Qed.
+
+(* ------------------------------------------------------------------ Fiber.fromLazy *)
+
+Lemma is_empty_content d t : is_empty d t = true -> content d t = [].
+Proof.
+  induction t as [v|es IH] using tree_ind'; intros He.
+  - cbn [is_empty] in He. cbn [content]. rewrite He. reflexivity.
+  - cbn [is_empty] in He. cbn [content].
+    induction es as [|[c t] es IHes]; [reflexivity|].
+    cbn [forallb snd] in He. apply andb_true_iff in He. destruct He as [H1 H2].
+    inversion IH as [|? ? Ht IH']; subst. cbn [snd] in Ht.
+    cbn [flat_map fst snd]. rewrite (Ht H1). cbn [map app]. apply IHes; assumption.
+Qed.
+
+Lemma coord2pos_above c l :
+  Forall (fun x => x < c) (map fst l) -> coord2pos c l = length l.
+Proof.
+  induction l as [|[c' t] l IH]; intros H; [reflexivity|].
+  cbn [map fst] in H. inversion H; subst. cbn [coord2pos length].
+  destruct (c <=? c') eqn:E; [lia|]. f_equal. auto.
+Qed.
+
+Lemma Forall_skipn {A} (P : A -> Prop) n : forall l, Forall P l -> Forall P (skipn n l).
+Proof.
+  induction n as [|n IH]; intros l H; [exact H|].
+  destruct l; [constructor|]. inversion H; subst. cbn [skipn]. auto.
+Qed.
+
+Lemma coord2pos_from_above p c es :
+  Forall (fun x => x < c) (map fst es) -> (p <= length es)%nat ->
+  coord2pos_from p c es = length es.
+Proof.
+  intros H Hp. unfold coord2pos_from. rewrite coord2pos_above.
+  - rewrite skipn_length. lia.
+  - rewrite <- skipn_map. apply Forall_skipn. exact H.
+Qed.
+
+Lemma coord_exists_beyond c es : coord_exists c (length es) es = None.
+Proof.
+  unfold coord_exists. replace (nth_error es (length es)) with (@None (Z * tree)); [reflexivity|].
+  symmetry. apply nth_error_None. lia.
+Qed.
+
+Lemma insert_at_end {A} (x : A) l : insert_at (length l) x l = l ++ [x].
+Proof. unfold insert_at. rewrite firstn_all, skipn_all. reflexivity. Qed.
+
+Lemma set_nth_end {A} (x y : A) l : set_nth (length l) y (l ++ [x]) = l ++ [y].
+Proof. induction l as [|a l IH]; [reflexivity|]. cbn [length app set_nth]. rewrite IH. reflexivity. Qed.
+
+Lemma ins_above c t l :
+  Forall (fun x => x < c) (map fst l) -> ins c t l = l ++ [(c, t)].
+Proof.
+  induction l as [|[c' t'] l IH]; intros H; [reflexivity|].
+  cbn [map fst] in H. inversion H; subst. cbn [ins app].
+  destruct (c <? c') eqn:E1; [lia|]. destruct (c =? c') eqn:E2; [lia|].
+  rewrite IH by assumption. reflexivity.
+Qed.
+
+Lemma coord2pos_snoc c (x : tree) acc :
+  Forall (fun y => y < c) (map fst acc) -> coord2pos c (acc ++ [(c, x)]) = length acc.
+Proof.
+  induction acc as [|[c' t'] acc IHa]; intros Habove.
+  - cbn [app coord2pos]. replace (c <=? c) with true by lia. reflexivity.
+  - cbn [map fst] in Habove. inversion Habove; subst. cbn [app coord2pos length].
+    destruct (c <=? c') eqn:E; [lia|]. f_equal. auto.
+Qed.
+
+(* the inner loop of Fiber.__ilshift__ appends a copy of every non-empty element *)
+Lemma ilshift_loop_spec cp d : forall l acc,
+  ssorted (map fst l) = true ->
+  (forall x y, In x (map fst acc) -> In y (map fst l) -> x < y) ->
+  ilshift_loop cp d l acc
+  = acc ++ map (fun ct => (fst ct, cp (snd ct)))
+               (filter (fun ct => negb (is_empty d (snd ct))) l).
+Proof.
+  induction l as [|[c s] l IH]; intros acc Hs Hlt.
+  - cbn [ilshift_loop filter map]. rewrite app_nil_r. reflexivity.
+  - cbn [map fst] in Hs. apply ssorted_inv in Hs. destruct Hs as [Hs Hall].
+    cbn [ilshift_loop filter snd].
+    destruct (is_empty d s) eqn:He; cbn [negb].
+    + apply IH; [exact Hs|]. intros x y Hx Hy. apply Hlt; [exact Hx|right; exact Hy].
+    + assert (Habove : Forall (fun x => x < c) (map fst acc)).
+      { apply Forall_forall. intros x Hx. apply Hlt; [exact Hx|left; reflexivity]. }
+      rewrite get_payload_ref_ins, (ins_above c _ acc Habove).
+      assert (Hpos : coord2pos c (acc ++ [(c, dflt d acc)]) = length acc)
+        by (apply coord2pos_snoc; exact Habove).
+      rewrite Hpos, set_nth_end.
+      rewrite IH; [|exact Hs|].
+      * rewrite <- app_assoc. reflexivity.
+      * intros x y Hx Hy. rewrite map_app in Hx. apply in_app_or in Hx.
+        destruct Hx as [Hx|Hx].
+        -- apply Hlt; [exact Hx|right; exact Hy].
+        -- cbn [map fst In] in Hx. destruct Hx as [<-|[]].
+           rewrite Forall_forall in Hall. auto.
+Qed.
+
+Lemma assign_copy_node d es :
+  ssorted (map fst es) = true ->
+  assign_copy d (Node es)
+  = Node (map (fun ct => (fst ct, assign_copy d (snd ct)))
+              (filter (fun ct => negb (is_empty d (snd ct))) es)).
+Proof.
+  intros Hs. cbn [assign_copy]. rewrite ilshift_loop_spec; [reflexivity|exact Hs|].
+  intros x y [].
+Qed.
+
+(* the copy has the content of the original (it only leaves out empty elements) *)
+Lemma assign_copy_content d t :
+  sorted_t t = true -> content d (assign_copy d t) = content d t.
+Proof.
+  induction t as [v|es IH] using tree_ind'; intros Hs; [reflexivity|].
+  cbn [sorted_t] in Hs. apply andb_true_iff in Hs. destruct Hs as [Hs Hsub].
+  rewrite assign_copy_node by exact Hs. cbn [content]. clear Hs.
+  induction es as [|[c t] es IHes]; [reflexivity|].
+  cbn [forallb snd] in Hsub. apply andb_true_iff in Hsub. destruct Hsub as [H1 H2].
+  inversion IH as [|? ? Ht IH']; subst. cbn [snd] in Ht.
+  cbn [filter snd]. destruct (is_empty d t) eqn:He; cbn [negb].
+  - cbn [flat_map fst snd]. rewrite (is_empty_content d t He). cbn [map app]. auto.
+  - cbn [map flat_map fst snd]. rewrite (Ht H1). f_equal. auto.
+Qed.
+
+Lemma assign_copy_keeps d t :
+  sorted_t t = true -> is_empty d t = false ->
+  match assign_copy d t with Node sub => Nat.eqb (length sub) O | Leaf v => v =? d end = false.
+Proof.
+  intros Hs He. destruct t as [v|es].
+  - cbn [assign_copy is_empty] in *. exact He.
+  - cbn [sorted_t] in Hs. apply andb_true_iff in Hs. destruct Hs as [Hs _].
+    rewrite assign_copy_node by exact Hs. cbn [is_empty] in He.
+    induction es as [|[c t] es IHes]; [discriminate|].
+    cbn [forallb snd] in He. cbn [filter snd].
+    destruct (is_empty d t) eqn:E; cbn [negb]; [|reflexivity].
+    cbn [andb] in He. apply IHes; [|exact He].
+    cbn [map fst] in Hs. apply ssorted_inv in Hs. tauto.
+Qed.
+
+(* the populate generator on the fresh destination appends one copy per offered element *)
+Lemma from_lazy_loop_spec d dt : forall b es a_pos,
+  ssorted (map fst b) = true ->
+  (forall x y, In x (map fst es) -> In y (map fst b) -> x < y) ->
+  a_pos = length es ->
+  Forall (fun ct => sorted_t (snd ct) = true /\ is_empty d (snd ct) = false) b ->
+  from_lazy_loop d dt b es a_pos
+  = es ++ map (fun ct => (fst ct, assign_copy d (snd ct))) b.
+Proof.
+  induction b as [|[c bp] b IH]; intros es a_pos Hs Hlt Hpos Hall.
+  - cbn [from_lazy_loop map]. rewrite app_nil_r. reflexivity.
+  - cbn [map fst] in Hs. apply ssorted_inv in Hs. destruct Hs as [Hs Hb].
+    inversion Hall as [|? ? [Hst Hne] Hall']; subst. cbn [snd] in Hst, Hne.
+    assert (Habove : Forall (fun x => x < c) (map fst es)).
+    { apply Forall_forall. intros x Hx. apply Hlt; [exact Hx|left; reflexivity]. }
+    cbn [from_lazy_loop].
+    set (a_pos1 := match es with [] => length es | _ :: _ => coord2pos_from (length es) c es end).
+    assert (Ha1 : a_pos1 = length es).
+    { unfold a_pos1. destruct es; [reflexivity|]. apply coord2pos_from_above; [exact Habove|lia]. }
+    rewrite Ha1. clear a_pos1 Ha1.
+    rewrite coord_exists_beyond.
+    set (idx := match match es with
+                      | [] => None
+                      | _ :: _ => match length es with O => None | S p => Some p end
+                      end with
+                | None => coord2pos c es
+                | Some p => coord2pos_from p c es
+                end).
+    assert (Hidx : idx = length es).
+    { unfold idx. destruct es as [|e es']; [reflexivity|].
+      cbn [length]. apply coord2pos_from_above; [exact Habove|cbn [length]; lia]. }
+    rewrite Hidx. clear idx Hidx.
+    rewrite coord_exists_beyond. cbn [negb andb].
+    rewrite insert_at_end, set_nth_end.
+    pose proof (assign_copy_keeps d bp Hst Hne) as Hk.
+    rewrite Hk.
+    rewrite IH; auto.
+    + rewrite <- app_assoc. reflexivity.
+    + intros x y Hx Hy. rewrite map_app in Hx. apply in_app_or in Hx. destruct Hx as [Hx|Hx].
+      * apply Hlt; [exact Hx|right; exact Hy].
+      * cbn [map fst In] in Hx. destruct Hx as [<-|[]]. rewrite Forall_forall in Hb. auto.
+    + rewrite app_length. cbn [length]. lia.
+Qed.
+
+Lemma content_node_copy d b :
+  Forall (fun ct => sorted_t (snd ct) = true) b ->
+  content d (Node (map (fun ct => (fst ct, assign_copy d (snd ct))) b)) = content d (Node b).
+Proof.
+  intros H. cbn [content]. induction b as [|[c t] b IH]; [reflexivity|].
+  inversion H; subst. cbn [map flat_map fst snd] in *.
+  rewrite assign_copy_content by assumption. f_equal. auto.
+Qed.
+
+(* Fiber.fromLazy materialises the yielded list: an eager fiber with the same coordinates, each
+   payload a copy without empty elements — hence with the content of the yielded list *)
+Lemma from_lazy_spec d dt ys :
+  ssorted (map ycoord ys) = true ->
+  Forall (fun y => sorted_t (ypay y) = true /\ is_empty d (ypay y) = false) ys ->
+  from_lazy d dt ys = map (fun y => (ycoord y, assign_copy d (ypay y))) ys
+  /\ content d (Node (from_lazy d dt ys)) = content d (Node (map strip_y ys)).
+Proof.
+  intros Hs Hall.
+  assert (H1 : from_lazy d dt ys = map (fun ct => (fst ct, assign_copy d (snd ct))) (map strip_y ys)).
+  { unfold from_lazy. fold strip_y. rewrite from_lazy_loop_spec; [reflexivity| | |reflexivity|].
+    - rewrite map_map. exact Hs.
+    - intros x y [].
+    - apply Forall_forall. intros ct Hin. apply in_map_iff in Hin. destruct Hin as [y [<- Hy]].
+      rewrite Forall_forall in Hall. apply (Hall y Hy). }
+  split.
+  - rewrite H1, map_map. reflexivity.
+  - rewrite H1. apply content_node_copy.
+    apply Forall_forall. intros ct Hin. apply in_map_iff in Hin. destruct Hin as [y [<- Hy]].
+    rewrite Forall_forall in Hall. apply (Hall y Hy).
+Qed.
+
+(* ---- what project / prune yield is fit for fromLazy: ascending, non-empty, sorted payloads *)
+
+Definition pay_sorted (es : fib) : Prop := Forall (fun ct => sorted_t (snd ct) = true) es.
+
+Lemma indexed_from_In es : forall i y, In y (indexed_from i es) -> In (ycoord y, ypay y) es.
+Proof.
+  induction es as [|[c t] es IH]; intros i y Hin; [destruct Hin|].
+  cbn [indexed_from In] in Hin. destruct Hin as [<-|Hin]; [left; reflexivity|right; eauto].
+Qed.
+
+Lemma default_iter_pay f y :
+  pay_sorted (f_es f) -> In y (spec_default_iter f) -> sorted_t (ypay y) = true.
+Proof.
+  intros Hp Hin. unfold pay_sorted in Hp. rewrite Forall_forall in Hp.
+  unfold spec_default_iter in Hin. destruct (fmt_U f).
+  - unfold spec_shape in Hin. apply in_map_iff in Hin. destruct Hin as [c [<- _]].
+    unfold spec_lookup, spec_find.
+    destruct (find (fun y => ycoord y =? c) (indexed (f_es f))) as [y0|] eqn:E.
+    + apply find_some in E. destruct E as [E _]. apply indexed_from_In in E.
+      apply (Hp _ E).
+    + cbn [ypay fst snd]. destruct (f_es f) as [|[c0 [v|sub]] r]; reflexivity.
+  - unfold spec_range in Hin. apply filter_In in Hin. destruct Hin as [Hin _].
+    apply indexed_from_In in Hin. apply (Hp _ Hin).
+Qed.
+
+Lemma spec_project_fit f k b iv :
+  pay_sorted (f_es f) ->
+  Forall (fun y => sorted_t (ypay y) = true /\ is_empty (f_d f) (ypay y) = false)
+         (spec_project f k b iv).
+Proof.
+  intros Hp. apply Forall_forall. intros y Hin. unfold spec_project in Hin.
+  apply filter_In in Hin. destruct Hin as [Hin Hf].
+  apply andb_true_iff in Hf. destruct Hf as [_ Hne]. unfold nonempty in Hne.
+  split; [|destruct (is_empty (f_d f) (ypay y)); [discriminate|reflexivity]].
+  apply in_map_iff in Hin. destruct Hin as [y0 [<- Hy0]].
+  change (ypay (retag k b y0)) with (ypay y0).
+  destruct (k <? 0).
+  - apply in_rev in Hy0. apply indexed_from_In in Hy0.
+    unfold pay_sorted in Hp. rewrite Forall_forall in Hp. apply (Hp _ Hy0).
+  - apply (default_iter_pay f y0 Hp Hy0).
+Qed.
+
+Lemma enumerate_from_In ys : forall i iy, In iy (enumerate_from i ys) -> In (snd iy) ys.
+Proof.
+  induction ys as [|y ys IH]; intros i iy Hin; [destruct Hin|].
+  cbn [enumerate_from In] in Hin. destruct Hin as [<-|Hin]; [left; reflexivity|right; eauto].
+Qed.
+
+Lemma spec_prune_fit f P :
+  pay_sorted (f_es f) ->
+  Forall (fun y => sorted_t (ypay y) = true /\ is_empty (f_d f) (ypay y) = false)
+         (spec_prune f P).
+Proof.
+  intros Hp. apply Forall_forall. intros y Hin. unfold spec_prune in Hin.
+  apply filter_In in Hin. destruct Hin as [Hin Hne]. unfold nonempty in Hne.
+  split; [|destruct (is_empty (f_d f) (ypay y)); [discriminate|reflexivity]].
+  apply in_map_iff in Hin. destruct Hin as [iy [<- Hiy]].
+  apply filter_In in Hiy. destruct Hiy as [Hiy _]. apply enumerate_from_In in Hiy.
+  apply (default_iter_pay f _ Hp Hiy).
+Qed.
+
+Lemma enumerate_from_snd ys : forall i, map snd (enumerate_from i ys) = ys.
+Proof. induction ys as [|y ys IH]; intros i; cbn [enumerate_from map snd]; [reflexivity|]. rewrite IH. reflexivity. Qed.
+
+Lemma spec_prune_sorted f P :
+  ssorted (map fst (f_es f)) = true -> ssorted (map ycoord (spec_prune f P)) = true.
+Proof.
+  intros Hs. unfold spec_prune. apply filter_sorted_key.
+  rewrite map_map.
+  apply (filter_sorted_key (fun iy : Z * yelem => ycoord (snd iy))).
+  rewrite <- (map_map snd ycoord). rewrite enumerate_from_snd.
+  apply spec_default_iter_sorted. exact Hs.
+Qed.
+
+(* ------------------------------------------------------------------ windows over a projection *)
+
+Lemma lazy_range_above d lo hi ys z :
+  ge_hi hi z = true -> Forall (fun x => z < x) (map ycoord ys) ->
+  filter (fun y => in_range lo hi (ycoord y) && nonempty d y) ys = [].
+Proof.
+  intros Hz. induction ys as [|y ys IH]; intros Hall; [reflexivity|].
+  cbn [map] in Hall. inversion Hall; subst. cbn [filter].
+  assert (Hge : ge_hi hi (ycoord y) = true).
+  { unfold ge_hi in *. destruct hi; [lia|discriminate]. }
+  unfold in_range. rewrite Hge, andb_false_r. cbn [andb]. auto.
+Qed.
+
+Lemma lazy_range_loop_filter d lo hi ys :
+  ssorted (map ycoord ys) = true ->
+  lazy_range_loop d lo hi ys = filter (fun y => in_range lo hi (ycoord y) && nonempty d y) ys.
+Proof.
+  induction ys as [|y ys IH]; intros Hs; [reflexivity|].
+  cbn [map] in Hs. apply ssorted_inv in Hs. destruct Hs as [Hs Hall].
+  cbn [lazy_range_loop filter]. unfold in_range at 1, nonempty at 1.
+  destruct (ge_hi hi (ycoord y)) eqn:Hge.
+  - rewrite andb_false_r. cbn [andb]. symmetry.
+    apply (lazy_range_above d lo hi ys (ycoord y)); assumption.
+  - destruct (in_lo lo (ycoord y)); cbn [andb negb].
+    + destruct (is_empty d (ypay y)); cbn [negb]; rewrite IH by exact Hs; reflexivity.
+    + apply IH. exact Hs.
+Qed.
+
+Lemma proj_source_none f k b iv :
+  ssorted (map fst (f_es f)) = true -> k <> 0 ->
+  exists src, proj_source f k b iv None = Some src /\
+              ssorted (map (image k b) src) = true /\
+              proj_of (f_d f) k b iv src = spec_project f k b iv.
+Proof.
+  intros Hs Hk. unfold proj_source, proj_reversed, spec_project.
+  fold (proj_of (f_d f) k b iv (if k <? 0 then rev (indexed (f_es f)) else spec_default_iter f)).
+  destruct (k * 0 + b >? k * 1 + b) eqn:Erev.
+  - replace (k <? 0) with true by lia. eexists. split; [reflexivity|]. split.
+    + unfold lazy_occ. apply filter_sorted_key. apply images_reversed; [lia|exact Hs].
+    + unfold lazy_occ. fold (nonempty (f_d f)). apply proj_of_nonempty_src.
+  - replace (k <? 0) with false by lia. cbn [proj_sp_ok].
+    rewrite iter_dispatch_spec; [|exact Hs|cbn [legal_sp]; apply orb_true_r].
+    eexists. split; [reflexivity|]. split; [|reflexivity].
+    apply images_forward; [lia|]. apply spec_default_iter_sorted. exact Hs.
+Qed.
+
+Lemma project_window_spec f k b iv lo hi :
+  ssorted (map fst (f_es f)) = true -> k <> 0 ->
+  project_window f k b iv lo hi
+  = Some (filter (fun y => in_range lo hi (ycoord y)) (spec_project f k b iv)).
+Proof.
+  intros Hs Hk. unfold project_window.
+  destruct (proj_source_none f k b iv Hs Hk) as [src [Hsrc [Himg Hproj]]].
+  rewrite Hsrc. f_equal. rewrite <- Hproj. unfold proj_of.
+  rewrite proj_loop_filter by exact Himg.
+  rewrite lazy_range_loop_filter.
+  2:{ apply filter_sorted_key. rewrite map_map.
+      change (fun x => ycoord (retag k b x)) with (image k b). exact Himg. }
+  rewrite !filter_filter. apply filter_ext. intros y.
+  destruct (in_iv iv (ycoord y)); destruct (in_range lo hi (ycoord y));
+    destruct (nonempty (f_d f) y); reflexivity.
+Qed.
+
+(* ------------------------------------------------------------------ owned fibers *)
+
+Lemma dispatch_owned f u sp :
+  ssorted (map fst (f_es f)) = true ->
+  f_owner f = Some u ->
+  u || legal_sp (f_d f) (f_es f) (below None) sp = true ->
+  iter_dispatch f sp
+  = if u
+    then Some (iter_range_shape f (fst (get_active f)) (snd (get_active f)) 1)
+    else iter_range f None None None.
+Proof.
+  intros Hs Ho Hl.
+  assert (Hf : fmt_U f = u) by (unfold fmt_U; rewrite Ho; reflexivity).
+  rewrite <- Hf in *. apply dispatch_full; assumption.
 Qed.
